@@ -772,6 +772,7 @@ def run(ctx):
         "rotations are compared with tolerance on every embedding (cos(k pi/2) is not exact)",
         "on non-dyadic embeddings a selection bound on an inner cell face may fall on either side (DESIGN 5.2)",
     ]
+    core.df_stage(ctx, df)   # mixed histories (spec/DF.tla): the clauses that come from this property's text
     return core.finish(ctx, rule=RULE, extra={"embeddings": [e.name for e in embs]})
 
 
